@@ -3042,6 +3042,7 @@ def _coerce_to__arglikes(
 
     elif codea_cls is _type_params:
         coerced = True
+        seen_keyword = seen_dstar = False
 
         for a in codea.type_params:
             a_cls = a.__class__
@@ -3052,6 +3053,15 @@ def _coerce_to__arglikes(
                 ast = _coerce_to__arglike_ast_ParamSpec(a, is_FST, options, parse_params)
             elif a_cls is TypeVarTuple:
                 ast, _ = _coerce_to_expr_ast(a, is_FST, options, parse_params, 'expression (arglike)', unmake=False)
+
+            if ast.__class__ is keyword:  # type params come in any order, arguments do not
+                seen_keyword = True
+
+                if ast.arg is None:
+                    seen_dstar = True
+
+            elif seen_dstar or (seen_keyword and ast.__class__ is not Starred):
+                raise _coerce_error('_arglikes', '_type_params', 'positional element follows keyword element')
 
             arglikes.append(ast)
 
@@ -3418,7 +3428,7 @@ def _coerce_to_keyword(
                               lineno=arg_.lineno, col_offset=arg_.col_offset, end_lineno=end_ln + 1,
                               end_col_offset=code._lines[end_ln].c2b(end_col))
 
-            defaults.clear()  # misc, so doesn't get unmade and remade, safe to do because no FST ops follow
+                defaults.clear()  # misc, so doesn't get unmade and remade, safe to do because no FST ops follow (not for a pure AST which is not ours to change)
 
     elif codea_cls is TypeVar:  # from `name=default_value`
         if codea.bound:
